@@ -459,7 +459,7 @@ class Interp:
             if 'env' in ev:
                 # environment faults can be switched off (solo passes); a caller's own writes into arrays it owns are part of
                 # its program and always happen
-                if self.env_enabled or (ev.get('c') is not None and ev['env'] in ('poke', 'perturb')):
+                if self.env_enabled or (ev.get('c') is not None and ev['env'] in ('poke', 'perturb', 'perturb_attr')):
                     self.do_env(i, ev)
                 continue
             if any(r not in self.store for r in self.event_refs(ev)):
@@ -553,6 +553,21 @@ class Interp:
                 self.fault('caller_write')
                 if self.hooks is not None and hasattr(self.hooks, 'on_dirty'):
                     self.hooks.on_dirty(self, tid)
+        elif kind == 'perturb_attr':
+            # the caller writes, in place, into an array one of its objects hands out (r.wave *= 1.05, r.value[...] = ...)
+            obj = self.store.get(ev['target'].lstrip('@'))
+            a = getattr(obj, ev['attr'], None) if obj is not None else None
+            if ev.get('unshared') and isinstance(a, np.ndarray) and self._shared(ev['target'].lstrip('@'), a):
+                self.probe('perturb_skipped_shared')        # the array is (also) somebody else's: not this caller's to scribble on
+            elif isinstance(a, np.ndarray) and a.flags.writeable and a.size and a.dtype.kind == 'f':
+                if ev.get('how', 'scale') == 'scale':
+                    a *= ev.get('by', 1.05)             # keeps a wavelength grid positive and increasing
+                else:
+                    g = np.random.Generator(np.random.PCG64(int(ev.get('seed', 0))))
+                    a[...] = a + 0.37 * (float(np.max(np.abs(a))) or 1.0) * g.uniform(0.1, 1.0, size=a.shape)
+                self.fault('caller_write')
+                if self.hooks is not None and hasattr(self.hooks, 'on_dirty'):
+                    self.hooks.on_dirty(self, ev['target'].lstrip('@'))
         elif kind == 'poke':
             # the caller assigns one element of an array it owns
             tid = ev['target'].lstrip('@')
